@@ -325,18 +325,40 @@ func runC11(a *A) {
 		byName[n] = v
 	}
 	dec := byName["TypeNewDecimal"]
+	// the leftover-digits table: the constant integer table the length rule (or a function it calls) indexes - by role, not
+	// by name
 	var dig []int64
-	for g, t := range cd.tables {
-		if g.Name() == "dig2bytes" {
-			for _, v := range t.vals {
-				k, _ := constInt(ssa.NewConst(v, g.Type()))
-				_ = k
+	used := map[*ssa.Global]bool{}
+	var scan func(f *ssa.Function, depth int)
+	scan = func(f *ssa.Function, depth int) {
+		instrs(f, func(in ssa.Instruction) {
+			if u, ok := in.(*ssa.UnOp); ok && u.Op == token.MUL {
+				if g, isG := u.X.(*ssa.Global); isG && cd.tables[g] != nil {
+					used[g] = true
+				}
 			}
-			for _, v := range t.vals {
-				var k int64
-				fmt.Sscan(v.String(), &k)
-				dig = append(dig, k)
+			if ia, ok := in.(*ssa.IndexAddr); ok {
+				if g, isG := ia.X.(*ssa.Global); isG && cd.tables[g] != nil {
+					used[g] = true
+				}
 			}
+			if c, ok := in.(*ssa.Call); ok && depth < 2 {
+				if cal := c.Common().StaticCallee(); cal != nil && cal.Pkg == w.Repl && cal.Blocks != nil && !c.Common().IsInvoke() {
+					scan(cal, depth+1)
+				}
+			}
+		})
+	}
+	scan(cd.lenFn, 0)
+	for g := range used {
+		t := cd.tables[g]
+		if t.isM || len(t.vals) != 10 || len(dig) > 0 {
+			continue
+		}
+		for _, v := range t.vals {
+			var k int64
+			fmt.Sscan(v.String(), &k)
+			dig = append(dig, k)
 		}
 	}
 	a.check(len(dig) == 10, "C11-R4", "table@dig2bytes", w.pos(cd.lenFn.Pos()), "leftover-digits table is a 10-entry constant never written after init", "the leftover-digits table is missing, not a literal, or written at run time")
